@@ -235,6 +235,7 @@ def router_scen(nseq_q, nseq_t, nrace_q, nrace_t):
         ns, nr = (nseq_t, nrace_t) if th else (nseq_q, nrace_q)
         out = [{'args': ['router', '--mode', 'seq', '--seed', str(seed + k), '--n', str(ns // 4)]} for k in range(4)]
         out += [{'args': ['router', '--mode', 'race', '--seed', str(seed + 10 + k), '--n', str(nr // 4)]} for k in range(4)]
+        out += [{'args': ['router', '--mode', 'burst', '--seed', str(seed + 20 + k), '--n', str(120 if th else 40)]} for k in range(2)]
         return out
     return f
 
@@ -262,7 +263,10 @@ PROPS['C17'] = dict(ROUTER_COMMON, **{
     'rule': ('seq: seeded client scripts of 3..14 operations {add_route, send, drop sender, shutdown, drop proxy} on a fresh RouterProxy with recording callbacks and '
              'drop guards, quiescence after every step, per-route logs compared with the model; race: 0..8 routes (one callback may re-enter add_route on the router '
              'thread), traffic thread, 0..2 registering threads, 1..4 concurrent shutdown() callers or a proxy drop, 10 s watchdog, panic hook; '
-             'non-trivial = traffic plus a stop/closure (seq) / every race case; distinct = distinct script or race configuration+log length'),
+             'burst: 16..40 routes (each with a message queued before registration) registered back to back on a fresh router while a second thread registers one more at a swept '
+             'delay of 0..600 us, then no further registration, 15 ms of silence, one more message per route: every route must see both messages in order within 3 s and drop '
+             'its callback on disconnection; '
+             'non-trivial = traffic plus a stop/closure (seq) / every race and burst case; distinct = distinct script or race configuration+log length'),
     'explanation': ('router thread as a pure event processor: stop theorems (no handler left, drops before the ack, nothing afterwards), no panic under the C06 contract, '
                     'late routes refused; the closed-system clauses (returns only when stopped, no deadlock) are exercised by the race scenario only'),
     'level_text': ('Kernel-checked for every router state and event continuation: Shutdown / proxy drop leave no handler, log one drop per handler before the '
@@ -284,6 +288,14 @@ PROPS['C07'] = dict(ROUTER_COMMON, **{
                    'concurrent registration and traffic'),
     'level_note': 'Trusted: Lean kernel, harness; relies on C06 for the event stream; crossbeam-forwarding routes are a callback route whose handler forwards (same dispatch path)',
 })
+
+
+def timed_scen_late(builds, nq, nt):
+    return lambda tier, seed: timed_scen(builds, nq, nt)(tier, seed)
+
+
+def world_scen_late(builds, nq, nt):
+    return lambda tier, seed: world_scen(builds, nq, nt)(tier, seed)
 
 
 def sched_scen(nq, nt):
@@ -345,6 +357,11 @@ def crash_scen(tier, seed):
     return [{'args': ['crash', '--shape', str(i), '--tier', tier]} for i in shapes]
 
 
+# delivery must not depend on which receive call is used: single-threaded scripts with recv / try_recv / try_recv_timeout (timed) and
+# handle-carrying programs (world) are part of C02 as well
+PROPS['C02']['scenarios'] = (lambda *fs: (lambda tier, seed: [x for f in fs for x in f(tier, seed)]))(sched_scen(480, 12000), timed_scen_late(['default'], 120, 3000), world_scen_late(['default'], 100, 2000))
+PROPS['C02']['rule'] += ('; plus timed scripts (every queued message must be returned, in order, by whichever of recv / try_recv / try_recv_timeout is issued, also after the last '
+                         'sender is gone) and world programs compared with the specification')
 PROPS['C12']['scenarios'] = (lambda old: (lambda tier, seed: old(tier, seed) + crash_scen(tier, seed)))(sched_scen(240, 6000))
 PROPS['C12']['rule'] += ('; crash: a spawned sender process is killed by its interposer immediately before counted system call k (socketpair, every sendmsg/send, every '
                          'close) of one send, for every k, for shapes of 1..6 packets, with/without an attachment, with 0 or 1 surviving sender handle in another process, '
@@ -467,9 +484,12 @@ PROPS['C03'] = {
 PROPS['C09'] = {
     'modules': ['IpcModel.Props.C09'],
     'theorems': ['C09.C09_no_hang', 'C09.C09_inv_step', 'C09.C09_error', 'C09.C09_transit'],
-    'scenarios': plus(world_scen(['default'], 300, 6000), lambda tier, seed: [{'args': ['vanish', '--tier', tier], 'timeout': 600}]),
+    'scenarios': plus(world_scen(['default'], 300, 6000), lambda tier, seed: [{'args': ['vanish', '--tier', tier], 'timeout': 600}],
+                      lambda tier, seed: [{'args': ['crash', '--shape', str(i), '--tier', tier, '--only-stale', '1']} for i in ((1, 2, 4, 5, 6) if tier == 'thorough' else (1, 2))]),
     'search': search_world,
-    'rule': ('vanish: receiver dropped before the send (sizes from 10 bytes to 4 MiB, with and without attachments), dropped 0/5/40 ms into a 4 MiB send that is blocked on full '
+    'rule': ('crash --only-stale: a receiver that travelled only inside a multi-packet message whose sending process was killed before call k (every k) exists nowhere once the '
+             'truncated message is discarded, even while the owner of the carrying channel is blocked in recv(): sends to it must start failing within 3 s; '
+             'vanish: receiver dropped before the send (sizes from 10 bytes to 4 MiB, with and without attachments), dropped 0/5/40 ms into a 4 MiB send that is blocked on full '
              'socket buffers (10 s watchdog), and a child process with SIGPIPE at its default disposition; world: sends to channels whose receiver is dropped or merely in '
              'transit inside an undelivered message, compared with Ideal.run; every case non-trivial'),
     'explanation': ('no-hang proved on a reference model of the dedicated socket (who keeps its receiving end alive); error / in-transit clauses proved on the specification; the real '
